@@ -1,2 +1,85 @@
-(** * C08 — service (stub, theorems follow) *)
-From Irismod Require Import Service.Model Service.Check.
+(** * C08 — Service: each request gets exactly one outcome; contexts follow their schedule.
+
+    Only statements, each closed by [exact] of a lemma of [Service/Proofs*.v], with
+    [Print Assumptions] beneath. *)
+From Irismod Require Import Service.Model Service.Proofs.
+
+(** A response succeeds only for a stored, still active request and only from the provider it
+    is addressed to; afterwards the request is inactive and carries the response. *)
+Theorem answer_only_by_addressee_while_active :
+  forall c s rid prov kind s',
+    respond c s rid prov kind = Okk s' ->
+    exists q, get rid (reqs s) = Some q /\ q_prov q = prov /\ q_active q = true
+      /\ exists q', get rid (reqs s') = Some q' /\ q_active q' = false /\ q_resp q' <> 0.
+Proof.
+  intros c s rid prov kind s' H. destruct (respond_ok_lemma _ _ _ _ _ _ H) as (q & A & B & C & (q' & D & E & F & _) & _).
+  exists q. repeat split; try assumption. exists q'. repeat split; assumption.
+Qed.
+Print Assumptions answer_only_by_addressee_while_active.
+
+(** Answers from anyone else, duplicate answers and answers after expiry (the request is no
+    longer active) are rejected, and the state is exactly as before. *)
+Theorem duplicate_or_late_answer_rejected_unchanged :
+  forall c s rid prov kind,
+    (match get rid (reqs s) with
+     | Some q => q_prov q <> prov \/ q_active q = false
+     | None => True end) ->
+    respond c s rid prov kind = Rejj /\ apply c s (Tx 0 (MRespond rid prov kind)) = s.
+Proof. exact respond_rejected_lemma. Qed.
+Print Assumptions duplicate_or_late_answer_rejected_unchanged.
+
+Theorem paused_issues_nothing :
+  forall s id x,
+    get id (ctxs s) = Some x -> x_state x <> 0 ->
+    let s' := new_batch_handler s id in
+    reqs s' = reqs s /\ g_batches s' = g_batches s /\ ctxs s' = ctxs s /\ led s' = led s
+    /\ expq s' = expq s /\ cblog s' = cblog s.
+Proof. exact paused_issues_nothing_lemma. Qed.
+Print Assumptions paused_issues_nothing.
+
+Theorem batch_starts_only_when_running :
+  forall s id,
+    let s' := new_batch_handler s id in
+    g_batches s' = g_batches s
+    \/ exists x, get id (ctxs s) = Some x /\ x_state x = 0
+                 /\ g_batches s' = g_batches s ++ [(id, x_batch x + 1, height s)]
+                 /\ get id (expmark s') = Some (height s + x_timeout x)
+                 /\ (exists x', get id (ctxs s') = Some x' /\ x_batch x' = x_batch x + 1 /\ x_brun x' = true).
+Proof. exact batch_start_lemma. Qed.
+Print Assumptions batch_starts_only_when_running.
+
+(** one-shot contexts are removed when their batch expires; repeated ones are rescheduled
+    [frequency] after the start of the batch (expiry height - timeout + frequency) *)
+Theorem oneshot_removed_repeated_rescheduled :
+  forall c s id x,
+    get id (ctxs s) = Some x -> x_state x = 0 ->
+    let s' := expired_batch_handler c s id in
+    (x_rep x && ((x_total x <? 0) || (x_batch x <? x_total x)) = false -> get id (ctxs s') = None)
+    /\ (x_rep x && ((x_total x <? 0) || (x_batch x <? x_total x)) = true ->
+        get id (newmark s') = Some (height s - x_timeout x + x_freq x)
+        /\ In (height s - x_timeout x + x_freq x, id) (newq s')
+        /\ exists x', get id (ctxs s') = Some x' /\ x_brun x' = false /\ x_batch x' = x_batch x /\ x_state x' = 0).
+Proof. exact batch_expiry_lemma. Qed.
+Print Assumptions oneshot_removed_repeated_rescheduled.
+
+Theorem only_consumer_controls :
+  forall c s txh m s',
+    exec_msg c s txh m = Okk s' ->
+    match m with
+    | MPause id cn | MStart id cn | MKill id cn | MUpdateCtx id _ _ _ _ _ _ cn =>
+        exists x, get id (ctxs s) = Some x /\ x_cons x = cn /\ x_mod x = false
+    | _ => True
+    end.
+Proof. exact only_consumer_controls_lemma. Qed.
+Print Assumptions only_consumer_controls.
+
+Theorem module_context_control :
+  forall c s st s',
+    exec_step c s st = Okk s' ->
+    match st with
+    | ModPause id cn | ModStart id cn | ModKill id cn =>
+        exists x, get id (ctxs s) = Some x /\ (x_mod x = true -> x_cons x = cn)
+    | _ => True
+    end.
+Proof. exact module_context_control_lemma. Qed.
+Print Assumptions module_context_control.
